@@ -217,3 +217,14 @@ Proof.
     rewrite E. apply failed_creats_run.
   - rewrite firstn_app_ge by lia. rewrite run_app, failed_creats_run. now rewrite L.
 Qed.
+
+(* ---------------------------------------------------------------- several failing calls *)
+Lemma crash_atomic_multi_lemma : forall cl tfd frs ks j st, scen_ok frs st ->
+  let st' := crash (mfm_trace cl tfd frs false ks) j st in
+  (forall f, In f frs -> lookup st' (fpath f) = lookup st (fpath f) \/ lookup st' (fpath f) = Some (new_text f)) /\
+  shape frs st st' /\ untouched frs st st'.
+Proof.
+  intros cl tfd frs ks j st S st'.
+  destruct (mfm_prefix cl tfd frs false ks j st S) as (_ & U & Sh & _).
+  split; [|split; auto]. intros f Hf. eapply shape_each; eauto.
+Qed.
